@@ -72,10 +72,9 @@ class Software:
             oversion, opatch = mx.group(1), mx.group(2).strip()
         else:
             oversion, opatch = other, ''
-        if self.version < oversion:
-            return -1
-        elif self.version > oversion:
-            return 1
+        vcmp = Software._compare_version_numbers(self.version, oversion)
+        if vcmp != 0:
+            return vcmp
         spatch = self.patch or ''
         if self.product == Product.DropbearSSH:
             if not re.match(r'^test\d.*$', opatch):
@@ -96,6 +95,20 @@ class Software:
         if spatch < opatch:
             return -1
         elif spatch > opatch:
+            return 1
+        return 0
+
+    @staticmethod
+    def _compare_version_numbers(a: str, b: str) -> int:
+        '''Compares two version strings.  Versions made of dot-separated decimal numbers are compared component by component numerically (so that 10.0 is newer than 9.9, and 0.10.6 is newer than 0.7.0); anything else falls back to a plain string comparison.'''
+        ka: Any = a
+        kb: Any = b
+        if re.match(r'^\d+(\.\d+)*$', a) and re.match(r'^\d+(\.\d+)*$', b):
+            ka = [int(x) for x in a.split('.')]
+            kb = [int(x) for x in b.split('.')]
+        if ka < kb:
+            return -1
+        elif ka > kb:
             return 1
         return 0
 
